@@ -43,7 +43,6 @@ import (
 	phttp "github.com/yandex/pandora/components/providers/http"
 	"github.com/yandex/pandora/components/providers/http/config"
 	"github.com/yandex/pandora/components/providers/http/decoders/raw"
-	putil "github.com/yandex/pandora/components/providers/http/util"
 	"github.com/yandex/pandora/core"
 	"github.com/yandex/pandora/core/aggregator/netsample"
 	"go.uber.org/zap"
@@ -719,10 +718,10 @@ func randItems(r *rand.Rand, format string, nreq int) []item {
 	return items
 }
 
-// frameTable: what the library (http.ReadRequest via raw.DecodeRequest, then EnrichRequestWithHeaders with the
-// `headers` option) makes of each frame; the Lean model treats a frame as opaque bytes and looks it up here.
-func frameTable(frames [][]byte, cfg []string) string {
-	cfgHeader, cfgErr := putil.DecodeHTTPConfigHeaders(cfg)
+// frameTable: what the library (http.ReadRequest via raw.DecodeRequest) makes of each frame; the Lean model treats a
+// frame as opaque bytes and looks it up here. The provider's `headers` option (EnrichRequestWithHeaders in
+// RawAmmo.BuildRequest) is NOT applied here: the Lean side does that itself (Spec.enrichCanon).
+func frameTable(frames [][]byte) string {
 	seen := map[string]bool{}
 	var out []string
 	for _, f := range frames {
@@ -734,9 +733,6 @@ func frameTable(frames [][]byte, cfg []string) string {
 		if err != nil {
 			out = append(out, hx(f)+">!")
 			continue
-		}
-		if cfgErr == nil {
-			putil.EnrichRequestWithHeaders(req, cfgHeader)
 		}
 		out = append(out, hx(f)+">"+canonReq(req))
 	}
@@ -802,7 +798,7 @@ func caseLine(format string, items []item, lay layout, pre bool, cfg []string) s
 		for _, it := range items {
 			frames = append(frames, it.c)
 		}
-		s += " tbl=" + frameTable(frames, cfg)
+		s += " tbl=" + frameTable(frames)
 	}
 	return s
 }
@@ -811,7 +807,7 @@ func malformedLine(format string, file []byte, frames [][]byte, k int, cfg []str
 	s := fmt.Sprintf("fmt=%s k=%d pre=0 file=%s", format, k, hx(file))
 	s += encCfg(cfg)
 	if format == "raw" {
-		s += " tbl=" + frameTable(append(frames, candidateFrames(file)...), cfg)
+		s += " tbl=" + frameTable(append(frames, candidateFrames(file)...))
 	}
 	return s
 }
@@ -1306,7 +1302,7 @@ func enumStream(thorough bool) []string {
 	add := func(f, file string, i int) {
 		s := fmt.Sprintf("fmt=%s k=4 pre=%d file=%s", f, i%2, hx([]byte(file)))
 		if f == "raw" {
-			s += " tbl=" + frameTable(candidateFrames([]byte(file)), nil)
+			s += " tbl=" + frameTable(candidateFrames([]byte(file)))
 		}
 		out = append(out, s)
 	}
